@@ -18,7 +18,7 @@ LEVEL_NOTE = "Trusted: panic = exit status 101 / abort signal / 'panicked at' on
 RULE = ("case = 1-3 corpus files (tests/rust_data, src) each with 1-5 seeded mutations (some left intact), one intact sibling with a "
         "missing reference, optional empty / >1 MiB file, mode check|edit, optional fail on OPEN_R/READ of one source file. "
         "Non-trivial = at least one mutated or faulted file; distinct = case index.")
-PROBES = ["invalid_utf8_file", "read_fault_injected", "unreadable_file_skipped", "empty_file", "large_file", "multibyte_before_bang",
+PROBES = ["unicode_messages", "invalid_utf8_file", "read_fault_injected", "unreadable_file_skipped", "empty_file", "large_file", "multibyte_before_bang",
           "edit_mode", "check_mode"]
 ASSUMPTIONS = ["files <= ~1.5 MiB count as 'ordinary shape' for the 20 s bound"]
 DEADLINE = {"quick": 200, "thorough": 3300}
@@ -29,6 +29,25 @@ RE_PANIC_AT = re.compile(r"panicked at ([^\s:]+:\d+)")
 
 def n_cases(tier):
     return 3000 if tier == "quick" else 100000
+
+
+UNI = ["é", "ß", "ж", "я", "日", "本", "語", "𝔘", "😀", "‎", "ñ", "Ω", "\u0301", "\u00a0", "ü"]
+
+
+def unicode_statements(rng, structured):
+    """Log statements whose message (and surroundings) mix 1-4 byte characters at every byte alignment."""
+    out = ["fn uni(count: u32, state: &str) {\n"]
+    for _ in range(rng.randrange(3, 10)):
+        pre = "".join(rng.choice("abcdefgh xyz_") for _ in range(rng.randrange(0, 24)))
+        body = "".join(rng.choice(UNI) if rng.random() < 0.6 else rng.choice("abc def") for _ in range(rng.randrange(1, 40)))
+        msg = pre + body
+        lead = rng.choice(["    ", "\t", "    /* " + rng.choice(UNI) * rng.randrange(1, 4) + " */ ", "    let _" + "é" + " = 1; "])
+        macro = rng.choice(["info", "warn", "error", "log::info"])
+        args = rng.choice(["", "", "target: \"" + rng.choice(UNI) + "t\", ", "k = \"" + rng.choice(UNI) + ";\"; ", "state; "])
+        ref = rng.choice(["", "", "[ref: %d] " % rng.randrange(1, 99999)])
+        out.append("%s%s!(%s\"%s%s\");\n" % (lead, macro, args, ref, msg))
+    out.append("}\n")
+    return "".join(out).encode("utf-8")
 
 
 def gen(rng):
@@ -62,6 +81,9 @@ def gen(rng):
         half = rng.choice([550000, 700000])
         files["proj/src/big.rs"] = world.make_pad(rng, half).encode() + mid + b"\n" + world.make_pad(rng, half).encode()
         tags.add("large_file")
+    if rng.random() < 0.5:
+        files["proj/src/uni_msgs.rs"] = unicode_statements(rng, structured)
+        tags.add("unicode_messages")
     sib = ("fn sibling() {\n    %s!(\"mkSIBq intact sibling\");\n}\n" % "info").encode()
     wm_extra = {p: {"t": "f", "mode": 0o644, "data": d} for p, d in files.items()}
     wm_extra[SIB] = {"t": "f", "mode": 0o644, "data": sib}
